@@ -115,6 +115,19 @@ def build(kind, br):
         n = dim("n")
         a = SymTensor.fresh("A", (n, n), F)
         return LO.BatchRepeatLinearOperator(LO.DenseLinearOperator(a), batch_repeat=sym_size(bs) if br else sym_size((1,)))
+    if kind.startswith("Interp"):
+        w = int(kind[-1])
+        m, m2 = dim("mb"), dim("mb2")
+        if kind.startswith("InterpRoot"):
+            m2 = m
+            base = LO.RootLinearOperator(ten("R", m, dim("k")))
+        else:
+            base = LO.DenseLinearOperator(ten("Kb", m, m2))
+        n, n2 = dim("n"), dim("n2")
+        mz, m2z = sym.as_z3_int(m), sym.as_z3_int(m2)
+        li = SymTensor.fresh("li", bs + (n, w), T.int64, constraint=lambda i, v: z3.And(v >= 0, v < mz))
+        ri = SymTensor.fresh("ri", bs + (n2, w), T.int64, constraint=lambda i, v: z3.And(v >= 0, v < m2z))
+        return LO.InterpolatedLinearOperator(base, li, ten("lv", n, w), ri, ten("rv", n2, w))
     raise KeyError(kind)
 
 
@@ -128,7 +141,7 @@ SLOW = {"Kronecker2", "Kronecker3", "BlockInterleaved", "BlockDiag"}  # non-line
 SLOW_MS = 240000
 
 GET_INDICES_KINDS = ["Dense", "Diag", "ConstantDiag", "Toeplitz", "Triangular", "Kronecker2", "BlockDiag", "BlockInterleaved",
-                     "Sum", "AddedDiag", "ConstantMul", "Matmul", "Root", "SumBatch", "BatchRepeat"]
+                     "Sum", "AddedDiag", "ConstantMul", "Matmul", "Root", "SumBatch", "BatchRepeat", "Interp_w1", "Interp_w2", "InterpRoot_w2"]
 
 
 def check_get_indices(kind, br):
@@ -170,7 +183,7 @@ def check_get_indices(kind, br):
 
 
 DIAG_KINDS = ["Dense", "Diag", "ConstantDiag", "Toeplitz", "Triangular", "Kronecker2", "BlockDiag", "BlockInterleaved", "Sum", "AddedDiag",
-              "ConstantMul", "SumBatch", "BatchRepeat", "Root", "Matmul"]
+              "ConstantMul", "SumBatch", "BatchRepeat", "Root", "Matmul", "Interp_w1", "Interp_w2", "InterpRoot_w2"]
 
 
 def check_diagonal(kind, br):
@@ -215,7 +228,7 @@ def replay_class(kind, what):
 
     name = {"Dense": "dense_rect", "Diag": "diag", "ConstantDiag": "constdiag", "Toeplitz": "toeplitz", "Triangular": "tri_lower", "Kronecker2": "kron2",
             "Kronecker3": "kron3_rect", "BlockDiag": "blockdiag3", "BlockInterleaved": "blockinterleaved3", "Sum": "sum", "AddedDiag": "addeddiag",
-            "Mul": "mul", "ConstantMul": "constmul", "Matmul": "matmul", "Root": "root", "SumBatch": "sumbatch", "BatchRepeat": "batchrepeat2"}[kind]
+            "Interp_w1": "interp", "Interp_w2": "interp", "InterpRoot_w2": "nest_interp_root_sq", "Mul": "mul", "ConstantMul": "constmul", "Matmul": "matmul", "Root": "root", "SumBatch": "sumbatch", "BatchRepeat": "batchrepeat2"}[kind]
     case = zoo.BY_NAME[name]
     for batch in ((), (2,), (2, 3)):
         for n in (1, 2, 3, 4, 6):
